@@ -182,7 +182,7 @@ class Stepper:
         })
         override = st.sampled_from(OVERRIDE_FIELDS).flatmap(lambda f: st.fixed_dictionaries({
             'op': st.just('override'), 'cls': st.sampled_from(POOL), 'field': st.just(f),
-            'value': st.sampled_from(OVERRIDE_VALUES[f])}))
+            'value': st.sampled_from(OVERRIDE_VALUES[f])}, optional={'other_report': st.just(True)}))
         options = [create, create, create, override, override,
                    st.just({'op': 'clear'}), st.just({'op': 'contextualize'}),
                    st.fixed_dictionaries({'op': st.just('set_formatter'), 'fmt': st.sampled_from(['marker', 'html', 'default'])}),
@@ -216,8 +216,12 @@ class Stepper:
                           % (len(extra), [f.label for f in extra][:3])))
 
     def check_restored(self, viol, why):
+        other_only = self.__dict__.get('other_only', set())
+        inherited_from = lambda n: [m for m, c2 in self.s['classes'].items() if issubclass(self.s['classes'][n], c2)]
         for n, c in self.s['classes'].items():
             for a in self.s['attrs']:
+                if any((m, a) in other_only for m in inherited_from(n)):
+                    continue      # overridden through the second report only: stays until that report is cleared
                 if getattr(c, a) != self.s['pristine'][n][a] or type(getattr(c, a)) is not type(self.s['pristine'][n][a]):
                     viol.append(V('C20|override-not-restored',
                                   'after %s: %s.%s = %r, pristine value %r' % (why, n, a, getattr(c, a), self.s['pristine'][n][a])))
@@ -235,7 +239,18 @@ class Stepper:
                 self.do_handle(op, viol)
             elif kind == 'override':
                 cls = self.s['classes'][op['cls']]
-                cls.override(**{op['field']: op['value']})
+                if op.get('other_report'):
+                    # another report (a second grading context in the same script) overrides the class too; clearing the main report
+                    # afterwards must still give the class its attributes back
+                    from pedal.core.report import Report
+                    if not hasattr(self, 'other_report'):
+                        self.other_report = Report()
+                    cls.override(report=self.other_report, **{op['field']: op['value']})
+                    self.flags.add('override-from-second-report')
+                    self.__dict__.setdefault('other_only', set()).add((op['cls'], op['field']))
+                else:
+                    cls.override(**{op['field']: op['value']})
+                    self.__dict__.setdefault('other_only', set()).discard((op['cls'], op['field']))
                 self.overridden_since_clear = True
                 if getattr(cls, op['field']) != op['value']:
                     viol.append(V('C20|override-no-effect', '%s.%s not set' % (op['cls'], op['field'])))
